@@ -962,6 +962,10 @@ def gen_cfg(rng, alpha_kinds=('fixed',), universe_kinds=('static',), max_days=25
             mk['nan_from_row'] = 3
     if stale and rng.random() < 0.4:
         mk['stale_p'] = rng.choice([0.1, 0.3])
+    if stale and rng.random() < 0.2 and 'adj_round' not in mk:
+        mk['int_closes'] = True                      # closes in whole units (written without decimals), opens fractional
+        mk['level'] = {s_: rng.uniform(20, 400) for s_ in syms}
+        mk['ratio'] = {s_: 1.0 for s_ in syms}
     cfg['market'] = mk
     cfg['loud'] = rng.random() < 0.2          # the library's event printing left at its default (on)
     cfg['tz_mix'] = rng.choice([None, None, None, 'start', 'end'])
@@ -1095,7 +1099,8 @@ def make_world(cfg, rewrite_spec=None, shuffle=True):
     rows = market.build_rows(cfg['market'])
     if rewrite_spec is not None:
         rows = market.rewrite(rows, rewrite_spec)
-    w = market.World(rows, cfg['market']['adjust'], shuffle_seed=cfg['market']['seed'] if shuffle else None)
+    w = market.World(rows, cfg['market']['adjust'], shuffle_seed=cfg['market']['seed'] if shuffle else None,
+                     int_closes=bool(cfg['market'].get('int_closes')))
     if cfg.get('market2'):
         rows2 = market.build_rows(cfg['market2'])
         if rewrite_spec is not None:
